@@ -13,6 +13,43 @@ pub struct Violation {
     pub what: String, // human-readable: call, input, observed, expected
 }
 
+/// Library calls made by the searches go through these shims: a panic inside the library becomes an `Err("PANIC")`
+/// (so that the search can report the input instead of dying), and the most recent call is remembered so that a
+/// search which is nevertheless aborted (an `unwrap` on a result the property requires) can name the call.
+pub mod api {
+    use std::cell::RefCell;
+    use std::panic::catch_unwind;
+    thread_local! { pub static LAST_CALL: RefCell<String> = RefCell::new(String::new()); }
+    pub fn note(s: String) {
+        LAST_CALL.with(|l| *l.borrow_mut() = s);
+    }
+    pub fn last() -> String {
+        LAST_CALL.with(|l| l.borrow().clone())
+    }
+    fn guard<T>(f: impl FnOnce() -> Result<T, String> + std::panic::UnwindSafe) -> Result<T, String> {
+        catch_unwind(f).unwrap_or_else(|_| Err("PANIC".to_string()))
+    }
+    pub fn cell_to_children(c: u64, t: Option<i32>) -> Result<Vec<u64>, String> {
+        note(format!("cell_to_children({:x}, {:?})", c, t));
+        guard(move || a5::cell_to_children(c, t))
+    }
+    pub fn cell_to_parent(c: u64, t: Option<i32>) -> Result<u64, String> {
+        note(format!("cell_to_parent({:x}, {:?})", c, t));
+        guard(move || a5::cell_to_parent(c, t))
+    }
+    pub fn compact(l: &[u64]) -> Result<Vec<u64>, String> {
+        note(format!("compact({:x?})", &l[..l.len().min(40)]));
+        let v = l.to_vec();
+        guard(move || a5::compact(&v))
+    }
+    pub fn uncompact(l: &[u64], t: i32) -> Result<Vec<u64>, String> {
+        note(format!("uncompact({:x?}, {})", &l[..l.len().min(40)], t));
+        let v = l.to_vec();
+        guard(move || a5::uncompact(&v, t))
+    }
+}
+
+
 #[derive(Default)]
 pub struct SearchResult {
     pub evaluations: u64,
@@ -181,14 +218,14 @@ pub fn search_c05(rng: &mut Rng, thorough: bool) -> SearchResult {
         let res = random_res(rng);
         let c = valid_cell(rng, res);
         let mut outs: Vec<u64> = Vec::new();
-        if let Ok(v) = a5::cell_to_children(c, None) {
+        if let Ok(v) = api::cell_to_children(c, None) {
             outs.extend(v);
         }
-        if let Ok(p) = a5::cell_to_parent(c, None) {
+        if let Ok(p) = api::cell_to_parent(c, None) {
             outs.push(p);
         }
         if res >= 0 {
-            if let Ok(p) = a5::cell_to_parent(c, Some(rng.range_i(-1, res as i64) as i32)) {
+            if let Ok(p) = api::cell_to_parent(c, Some(rng.range_i(-1, res as i64) as i32)) {
                 outs.push(p);
             }
         }
@@ -279,7 +316,7 @@ fn fanout(res: i32, target: i32) -> u64 {
 fn check_children(r: &mut SearchResult, c: u64, target: i32) -> Option<Vec<u64>> {
     let res = spec_resolution(c);
     r.evaluations += 1;
-    let ch = match catch_unwind(|| a5::cell_to_children(c, Some(target))) {
+    let ch = match catch_unwind(|| api::cell_to_children(c, Some(target))) {
         Ok(Ok(v)) => v,
         other => {
             r.viol("tree", format!("cell_to_children({:x},{}) -> {:?}", c, target, other.map(|x| x.map(|v| v.len())).map_err(|_| "panic")));
@@ -298,7 +335,7 @@ fn check_children(r: &mut SearchResult, c: u64, target: i32) -> Option<Vec<u64>>
             r.viol("tree", format!("child {:x} of {:x} is not a canonical cell of resolution {}", d, c, target));
             break;
         }
-        match a5::cell_to_parent(d, Some(res)) {
+        match api::cell_to_parent(d, Some(res)) {
             Ok(p) if p == c => {}
             other => {
                 r.viol("tree", format!("ancestor of {:x} at {} is {:?}, expected {:x}", d, res, other, c));
@@ -347,10 +384,10 @@ pub fn search_c07(rng: &mut Rng, thorough: bool) -> SearchResult {
         // children compose
         if let Some(ch) = ch {
             let mid = rng.range_i(res as i64, t as i64) as i32;
-            if let Ok(m) = a5::cell_to_children(c, Some(mid)) {
+            if let Ok(m) = api::cell_to_children(c, Some(mid)) {
                 let mut via: Vec<u64> = Vec::new();
                 for x in m {
-                    via.extend(a5::cell_to_children(x, Some(t)).unwrap_or_default());
+                    via.extend(api::cell_to_children(x, Some(t)).unwrap_or_default());
                 }
                 if via != ch {
                     r.viol("tree", format!("children of children of {:x} via {} differ from children at {}", c, mid, t));
@@ -361,16 +398,17 @@ pub fn search_c07(rng: &mut Rng, thorough: bool) -> SearchResult {
         if res >= 0 {
             let a = rng.range_i(-1, res as i64) as i32;
             let b = rng.range_i(-1, a as i64) as i32;
-            let pa = a5::cell_to_parent(c, Some(a));
-            let pb = a5::cell_to_parent(c, Some(b));
-            let pab = pa.clone().and_then(|x| a5::cell_to_parent(x, Some(b)));
+            let par = |x: u64, k: i32| catch_unwind(move || api::cell_to_parent(x, Some(k))).unwrap_or_else(|_| Err("PANIC".to_string()));
+            let pa = par(c, a);
+            let pb = par(c, b);
+            let pab = pa.clone().and_then(|x| par(x, b));
             if pab != pb || pb.is_err() {
                 r.viol("tree", format!("ancestor composition fails for {:x}: at {} then {} = {:?}, directly {:?}", c, a, b, pab, pb));
             }
             r.evaluations += 1;
         }
     }
-    r.sample(format!("children of base cell 3 at resolution 1: {:x?}", a5::cell_to_children(a5::get_res0_cells().unwrap()[3], Some(1)).unwrap()));
+    r.sample(format!("children of base cell 3 at resolution 1: {:x?}", api::cell_to_children(a5::get_res0_cells().unwrap()[3], Some(1)).unwrap()));
     r
 }
 
@@ -381,10 +419,10 @@ pub fn search_c20(rng: &mut Rng, thorough: bool) -> SearchResult {
     let maxres = if thorough { 8 } else { 7 };
     r.rule = format!("sorted exhaustive lists of all cells of resolution 2..{}: ancestors at every level 1..r are monotone in the ID and every subtree is one contiguous run; random same-resolution pairs up to resolution 29 (adjacent positions, positions straddling parent boundaries): ancestor monotonicity, descendants of a precede descendants of b, subtree = open ID interval. non-trivial = distinct pairs", maxres);
     for res in 2..=maxres {
-        let mut all = a5::uncompact(&[0], res).unwrap();
+        let mut all = api::uncompact(&[0], res).unwrap();
         all.sort_unstable();
         for k in 1..=res {
-            let anc: Vec<u64> = all.iter().map(|&c| catch_unwind(move || a5::cell_to_parent(c, Some(k))).ok().and_then(|x| x.ok()).unwrap_or(u64::MAX)).collect();
+            let anc: Vec<u64> = all.iter().map(|&c| catch_unwind(move || api::cell_to_parent(c, Some(k))).ok().and_then(|x| x.ok()).unwrap_or(u64::MAX)).collect();
             if anc.iter().any(|&x| x == u64::MAX) {
                 r.viol("order", format!("res {}: an ancestor at {} could not be computed", res, k));
                 continue;
@@ -429,7 +467,7 @@ pub fn search_c20(rng: &mut Rng, thorough: bool) -> SearchResult {
         r.evaluations += 1;
         r.nontrivial += 1;
         for k in 1..=res {
-            let anc = |c: u64| catch_unwind(move || a5::cell_to_parent(c, Some(k))).ok().and_then(|x| x.ok());
+            let anc = |c: u64| catch_unwind(move || api::cell_to_parent(c, Some(k))).ok().and_then(|x| x.ok());
             match (anc(a), anc(b)) {
                 (Some(pa), Some(pb)) => {
                     if pa > pb {
@@ -444,8 +482,13 @@ pub fn search_c20(rng: &mut Rng, thorough: bool) -> SearchResult {
         }
         let d = (res + rng.range_i(1, 4) as i32).min(29);
         if d > res {
-            let da = a5::cell_to_children(a, Some(d)).unwrap();
-            let db = a5::cell_to_children(b, Some(d)).unwrap();
+            let (da, db) = match (api::cell_to_children(a, Some(d)), api::cell_to_children(b, Some(d))) {
+                (Ok(x), Ok(y)) if !x.is_empty() && !y.is_empty() => (x, y),
+                (x, y) => {
+                    r.viol("order", format!("descendants at resolution {} of {:x} or {:x} could not be computed: {:?} / {:?}", d, a, b, x.map(|v| v.len()), y.map(|v| v.len())));
+                    continue;
+                }
+            };
             let maxa = *da.iter().max().unwrap();
             let minb = *db.iter().min().unwrap();
             if maxa >= minb {
@@ -480,7 +523,7 @@ pub fn search_c09(rng: &mut Rng, thorough: bool) -> SearchResult {
         r.evaluations += 1;
         let too_fine = cells.iter().any(|&c| spec_resolution(c) > t);
         let cl = cells.clone();
-        let got = catch_unwind(move || a5::uncompact(&cl, t));
+        let got = catch_unwind(move || api::uncompact(&cl, t));
         match got {
             Err(_) => r.viol("uncompact", format!("uncompact({:x?},{}) panicked", cells, t)),
             Ok(Err(_)) => {
@@ -506,7 +549,7 @@ pub fn search_c09(rng: &mut Rng, thorough: bool) -> SearchResult {
                     let seg = &out[pos..pos + k];
                     let set: HashSet<u64> = seg.iter().copied().collect();
                     if set.len() != k
-                        || seg.iter().any(|&d| spec_resolution(d) != t || !is_canonical(d) || a5::cell_to_parent(d, Some(q)).ok() != Some(c))
+                        || seg.iter().any(|&d| spec_resolution(d) != t || !is_canonical(d) || api::cell_to_parent(d, Some(q)).ok() != Some(c))
                     {
                         r.viol("uncompact", format!("uncompact({:x?},{}): segment for input {:x} is not its {} distinct descendants", cells, t, c, k));
                         break;
@@ -519,14 +562,14 @@ pub fn search_c09(rng: &mut Rng, thorough: bool) -> SearchResult {
             r.nontrivial += 1;
         }
     }
-    r.sample(format!("uncompact([world], 1) has {} cells", a5::uncompact(&[0], 1).unwrap().len()));
+    r.sample(format!("uncompact([world], 1) has {} cells", api::uncompact(&[0], 1).unwrap().len()));
     r
 }
 
 // ---------------------------------------------------------------- C08 / C10
 
 fn cover(cells: &[u64], res: i32) -> Option<HashSet<u64>> {
-    a5::uncompact(cells, res).ok().map(|v| v.into_iter().collect())
+    api::uncompact(cells, res).ok().map(|v| v.into_iter().collect())
 }
 
 fn has_sibling_group(set: &HashSet<u64>) -> Option<u64> {
@@ -536,8 +579,8 @@ fn has_sibling_group(set: &HashSet<u64>) -> Option<u64> {
         if res < 0 {
             continue;
         }
-        let p = a5::cell_to_parent(c, None).unwrap();
-        let sib = a5::cell_to_children(p, None).unwrap();
+        let p = api::cell_to_parent(c, None).unwrap();
+        let sib = api::cell_to_children(p, None).unwrap();
         if sib[0] == c && sib.iter().all(|x| set.contains(x)) {
             return Some(p);
         }
@@ -555,7 +598,7 @@ pub fn search_c08(rng: &mut Rng, thorough: bool) -> SearchResult {
         }
         r.evaluations += 1;
         let inp = input.clone();
-        let out = match catch_unwind(move || a5::compact(&inp)) {
+        let out = match catch_unwind(move || api::compact(&inp)) {
             Ok(Ok(v)) => v,
             other => {
                 r.viol("compact", format!("compact({:x?}) -> {:?}", &input[..input.len().min(40)], other.map(|x| x.map(|v| v.len())).map_err(|_| "panic")));
@@ -583,7 +626,7 @@ pub fn search_c08(rng: &mut Rng, thorough: bool) -> SearchResult {
             let x = perm[rng.below(perm.len() as u64) as usize];
             perm.push(x);
         }
-        let out2 = a5::compact(&perm).unwrap_or_default();
+        let out2 = api::compact(&perm).unwrap_or_default();
         if out2 != out {
             r.viol("compact-order", format!("compact depends on order/multiplicity: {:x?} -> {:x?} vs {:x?}", &input[..input.len().min(40)], &out[..out.len().min(40)], &out2[..out2.len().min(40)]));
         }
@@ -595,7 +638,7 @@ pub fn search_c08(rng: &mut Rng, thorough: bool) -> SearchResult {
         let mut desc = asc_u.clone();
         desc.reverse();
         for (name, variant) in [("ascending", &asc), ("ascending without duplicates", &asc_u), ("descending", &desc)] {
-            let o = a5::compact(variant).unwrap_or_default();
+            let o = api::compact(variant).unwrap_or_default();
             if o != out {
                 r.viol("compact-order", format!("compact depends on order/multiplicity: the {} arrangement {:x?} -> {:x?}, another arrangement -> {:x?}", name, &variant[..variant.len().min(40)], &o[..o.len().min(40)], &out[..out.len().min(40)]));
             }
@@ -620,8 +663,8 @@ pub fn search_c10(rng: &mut Rng, thorough: bool) -> SearchResult {
             for &b in &a5::get_res0_cells().unwrap() {
                 match rng.below(5) {
                     0 => a.push(b),
-                    1 => a.extend(a5::cell_to_children(b, Some(1)).unwrap()),
-                    2 => a.extend(a5::cell_to_children(b, Some(2)).unwrap()),
+                    1 => a.extend(api::cell_to_children(b, Some(1)).unwrap()),
+                    2 => a.extend(api::cell_to_children(b, Some(2)).unwrap()),
                     3 => antichain(rng, b, 3, 70, 15, &mut a),
                     _ => {}
                 }
@@ -645,7 +688,7 @@ pub fn search_c10(rng: &mut Rng, thorough: bool) -> SearchResult {
             _ => rng.shuffle(&mut a),
         }
         r.evaluations += 1;
-        let out = match a5::compact(&a) {
+        let out = match api::compact(&a) {
             Ok(v) => v,
             Err(e) => {
                 r.viol("compact", format!("compact({:x?}) = Err({})", &a[..a.len().min(40)], e));
@@ -660,14 +703,14 @@ pub fn search_c10(rng: &mut Rng, thorough: bool) -> SearchResult {
         {
             let mut asc = a.clone();
             asc.sort_unstable();
-            let out_asc: HashSet<u64> = a5::compact(&asc).unwrap_or_default().into_iter().collect();
+            let out_asc: HashSet<u64> = api::compact(&asc).unwrap_or_default().into_iter().collect();
             if let Some(p) = has_sibling_group(&out_asc) {
                 r.viol("compact-maximal", format!("compact of the ascending input {:x?} still contains all children of {:x}", &asc[..asc.len().min(60)], p));
             } else if out_asc != set {
                 r.viol("compact-canonical", format!("the ascending arrangement of {:x?} compacts to a different set", &a[..a.len().min(60)]));
             }
         }
-        let again = a5::compact(&out).unwrap_or_default();
+        let again = api::compact(&out).unwrap_or_default();
         let set2: HashSet<u64> = again.iter().copied().collect();
         if set2 != set {
             r.viol("compact-idempotent", format!("compact(compact(x)) != compact(x) for x = {:x?}", &a[..a.len().min(60)]));
@@ -677,7 +720,7 @@ pub fn search_c10(rng: &mut Rng, thorough: bool) -> SearchResult {
         for &c in &a {
             let q = spec_resolution(c);
             if q < 28 && rng.chance(1, 3) {
-                b.extend(a5::cell_to_children(c, Some(q + 1 + rng.below(2) as i32)).unwrap());
+                b.extend(api::cell_to_children(c, Some(q + 1 + rng.below(2) as i32)).unwrap());
             } else {
                 b.push(c);
             }
@@ -688,7 +731,7 @@ pub fn search_c10(rng: &mut Rng, thorough: bool) -> SearchResult {
             } else {
                 rng.shuffle(&mut b);
             }
-            let outb: HashSet<u64> = a5::compact(&b).unwrap_or_default().into_iter().collect();
+            let outb: HashSet<u64> = api::compact(&b).unwrap_or_default().into_iter().collect();
             if outb != set {
                 r.viol("compact-canonical", format!("two inputs covering the same region compact differently: {:x?} vs split version -> {:x?} vs {:x?}", &a[..a.len().min(30)], &out[..out.len().min(30)], outb.iter().take(30).collect::<Vec<_>>()));
             }
@@ -701,9 +744,9 @@ pub fn search_c10(rng: &mut Rng, thorough: bool) -> SearchResult {
     r.sample("compact(5 quintants of face 0 ++ base cells 1..11) (D2 regression) must be [world]".into());
     {
         let base = a5::get_res0_cells().unwrap();
-        let mut x = a5::cell_to_children(base[0], Some(1)).unwrap();
+        let mut x = api::cell_to_children(base[0], Some(1)).unwrap();
         x.extend(&base[1..]);
-        let out = a5::compact(&x).unwrap_or_default();
+        let out = api::compact(&x).unwrap_or_default();
         if out != vec![0] {
             r.viol("compact-maximal", format!("compact(quintants of face 0 ++ base cells 1..11) = {:x?}, expected [0]", out));
         }
@@ -756,19 +799,19 @@ pub fn search_c14(rng: &mut Rng, thorough: bool) -> SearchResult {
         // children (fan-out bounded)
         let fan_ok = t <= res.max(1) + 8 && !(res < 1 && t > 6);
         if fan_ok {
-            if let Some(w) = call(&mut r, "cell_to_children", true, &mut || a5::cell_to_children(id, Some(t)).map(|v| v.into_iter().map(|x| (x, Some(t))).collect())) {
+            if let Some(w) = call(&mut r, "cell_to_children", true, &mut || api::cell_to_children(id, Some(t)).map(|v| v.into_iter().map(|x| (x, Some(t))).collect())) {
                 r.viol("total:children", format!("cell_to_children({:x}, Some({})): {}", id, t, w));
             }
         }
         if res < 29 || true {
-            if let Some(w) = call(&mut r, "cell_to_children_default", malformed, &mut || a5::cell_to_children(id, None).map(|v| v.into_iter().map(|x| (x, None)).collect())) {
+            if let Some(w) = call(&mut r, "cell_to_children_default", malformed, &mut || api::cell_to_children(id, None).map(|v| v.into_iter().map(|x| (x, None)).collect())) {
                 r.viol("total:children", format!("cell_to_children({:x}, None): {}", id, w));
             }
         }
-        if let Some(w) = call(&mut r, "cell_to_parent", true, &mut || a5::cell_to_parent(id, Some(t)).map(|x| vec![(x, Some(t))])) {
+        if let Some(w) = call(&mut r, "cell_to_parent", true, &mut || api::cell_to_parent(id, Some(t)).map(|x| vec![(x, Some(t))])) {
             r.viol("total:parent", format!("cell_to_parent({:x}, Some({})): {}", id, t, w));
         }
-        if let Some(w) = call(&mut r, "cell_to_parent_default", malformed, &mut || a5::cell_to_parent(id, None).map(|x| vec![(x, None)])) {
+        if let Some(w) = call(&mut r, "cell_to_parent_default", malformed, &mut || api::cell_to_parent(id, None).map(|x| vec![(x, None)])) {
             r.viol("total:parent", format!("cell_to_parent({:x}, None): {}", id, w));
         }
         if let Some(w) = call(&mut r, "get_resolution", malformed, &mut || { a5::get_resolution(id); Ok(vec![]) }) {
@@ -786,14 +829,14 @@ pub fn search_c14(rng: &mut Rng, thorough: bool) -> SearchResult {
         let len = rng.below(20);
         let l: Vec<u64> = (0..len).map(|_| if rng.chance(1, 2) { malformed_id(rng) } else { let q = random_res(rng); valid_cell(rng, q) }).collect();
         let l1 = l.clone();
-        if let Some(w) = call(&mut r, "compact", true, &mut || a5::compact(&l1).map(|_| vec![])) {
+        if let Some(w) = call(&mut r, "compact", true, &mut || api::compact(&l1).map(|_| vec![])) {
             r.viol("total:compact", format!("compact({:x?}): {}", l, w));
         }
         let t = idcorr::extreme_res(rng);
         let fan: u64 = l.iter().map(|&c| { let q = a5::get_resolution(c); if (-1..30).contains(&t) && t >= q { fanout(q, t) } else { 0 } }).fold(0u64, |a, b| a.saturating_add(b));
         if fan <= 65_536 {
             let l2 = l.clone();
-            if let Some(w) = call(&mut r, "uncompact", true, &mut || a5::uncompact(&l2, t).map(|_| vec![])) {
+            if let Some(w) = call(&mut r, "uncompact", true, &mut || api::uncompact(&l2, t).map(|_| vec![])) {
                 r.viol("total:uncompact", format!("uncompact({:x?},{}): {}", l, t, w));
             }
         }
@@ -804,7 +847,7 @@ pub fn search_c14(rng: &mut Rng, thorough: bool) -> SearchResult {
             let first = (code << 58) | (1u64 << marker);
             let l: Vec<u64> = (0..12u64).map(|j| first.wrapping_add(j << 58)).filter(|&x| x >= first).collect();
             let l1 = l.clone();
-            if let Some(w) = call(&mut r, "compact", true, &mut || a5::compact(&l1).map(|_| vec![])) {
+            if let Some(w) = call(&mut r, "compact", true, &mut || api::compact(&l1).map(|_| vec![])) {
                 r.viol("total:compact", format!("compact({:x?}): {}", l, w));
             }
         }
